@@ -608,7 +608,10 @@ func Run(t *simkit.Tape, o *simkit.Outcome, full bool) {
 		o.HarnessDoubt("scheduler P gave up (%s) argv=%q", run.Res.Note, argv)
 		return
 	}
-	if run.Res.End != "main-exit" {
+	if run.Res.End == "os-exit" {
+		o.Probe("tool-ended-with-os-exit")
+	}
+	if !run.Ended() {
 		o.Violate(P, "cli-no-termination", "cli-"+run.Res.End, "the tool did not end normally (%s)\nargv=%q", run.Res.End, argv)
 		return
 	}
@@ -647,7 +650,7 @@ func Run(t *simkit.Tape, o *simkit.Outcome, full bool) {
 			o.HarnessDoubt("scheduler P gave up (%s)", r1.Res.Note)
 			return
 		}
-		if e1 != nil || r1.ExitErr != "" || r1.Res.End != "main-exit" {
+		if e1 != nil || r1.ExitErr != "" || !r1.Ended() {
 			o.Violate(P, "cli-no-termination", "cli-single-file-run", "the tool did not end normally on the single input %s\nargv=%q", f, single.Argv(1))
 			return
 		}
